@@ -127,6 +127,54 @@ def genswap(files):
     print(n, 'swap mutants')
 
 
+def gencond(files):
+    """third operator family: a guard dropped or forced (`if c {` -> `if true {` / `if false {`), one conjunct / disjunct removed"""
+    os.makedirs(OUT, exist_ok=True)
+    have = {m['id'] for m in load('mutants.jsonl')}
+    n = 0
+    skip = ('debug_assert', 'tracing::', 'metrics', 'histogram!', 'counter!', 'trace!', 'debug!', 'panic!', 'assert!')
+    with open(os.path.join(OUT, 'mutants.jsonl'), 'a') as out:
+        def emit(rel, i, tag, old, new):
+            nonlocal n
+            mid = f'{rel}:{i+1}:{tag}'
+            if mid in have or new == old:
+                return
+            have.add(mid)
+            out.write(json.dumps(dict(id=mid, file=rel, line=i + 1, op=tag, old=old, new=new)) + '\n')
+            n += 1
+        for rel in files:
+            p = os.path.join(core.REPO, rel)
+            if not os.path.exists(p):
+                continue
+            src, end = production_lines(p)
+            for i in range(end):
+                l = src[i]
+                code = l.split('//')[0]
+                t = code.strip()
+                if not t or any(k in t for k in skip):
+                    continue
+                m = re.match(r'^(\s*(?:\} else )?if )(?!let\b)(.+)( \{)\s*$', code)
+                if m and ' let ' not in m.group(2):
+                    emit(rel, i, 'iftrue', l, m.group(1) + 'true' + m.group(3))
+                    emit(rel, i, 'iffalse', l, m.group(1) + 'false' + m.group(3))
+                    c = m.group(2)
+                    for op in (' && ', ' || '):
+                        parts = c.split(op)
+                        if len(parts) >= 2 and all(x.count('(') == x.count(')') for x in parts):
+                            for k in range(len(parts)):
+                                rest = op.join(parts[:k] + parts[k + 1:])
+                                emit(rel, i, f'drop{k}', l, m.group(1) + rest + m.group(3))
+                m = re.match(r'^(\s*while )(?!let\b)(.+)( \{)\s*$', code)
+                if m and ' let ' not in m.group(2):
+                    c = m.group(2)
+                    for op in (' && ', ' || '):
+                        parts = c.split(op)
+                        if len(parts) >= 2 and all(x.count('(') == x.count(')') for x in parts):
+                            for k in range(len(parts)):
+                                emit(rel, i, f'wdrop{k}', l, m.group(1) + op.join(parts[:k] + parts[k + 1:]) + m.group(3))
+    print(n, 'condition mutants')
+
+
 ALL_RULES = None
 
 
@@ -340,6 +388,8 @@ if __name__ == '__main__':
     limit = int(a[a.index('--limit') + 1]) if '--limit' in a else 0
     if cmd == 'gen':
         gen([x for x in a[1:] if x.startswith('src/')] or FILES)
+    elif cmd == 'gencond':
+        gencond([x for x in a[1:] if x.startswith('src/')] or FILES)
     elif cmd == 'genswap':
         genswap([x for x in a[1:] if x.startswith('src/')] or FILES)
     elif cmd == 'run':
